@@ -200,6 +200,7 @@ type c37World struct {
 	live    []*c37Blk // last accepted block and its verified descendants, oldest first
 	pending map[int]bool
 	exec    map[ids.ID]uint64 // executed chunk id -> height
+	headers map[ids.ID]dsmr.BlockHeader
 	st      *vstat.Stats
 	labels  map[string]bool
 	nt      bool
@@ -344,9 +345,27 @@ func (w *c37World) tryBlock(ctx context.Context, parent *c37Blk, blk dsmr.Block,
 	if v.future {
 		w.label("future-expiry-admitted-by-implementation")
 	}
+	// A chain index is keyed by block id, so ids must identify blocks. x/dsmr derives
+	// the id from the marshalled Block, whose embedded BlockHeader carries no
+	// `serialize` tag: blocks with equal certificate lists share an id whatever their
+	// parent, height and timestamp (finding "dsmr-block-id-omits-header", reported
+	// separately; with two such blocks in one index the ancestries are silently
+	// swapped and the window's ancestor walk can cycle forever). Verify does not look
+	// at the id of the block it is given, so the verdict above is unaffected; only
+	// the insertion of a second block under an id that is already taken is excluded.
+	if prev, ok := w.headers[blk.GetID()]; ok {
+		if prev == blk.BlockHeader {
+			w.st.Skip("identical-block-again")
+		} else {
+			w.st.Exclude("dsmr-block-id-omits-header")
+			w.label("excluded-insertion-block-id-collision")
+		}
+		return nil
+	}
 	nb := &c37Blk{blk: blk, parent: parent, certs: certs}
 	w.live = append(w.live, nb)
 	w.index.add(blk)
+	w.headers[blk.GetID()] = blk.BlockHeader
 	return nil
 }
 
@@ -360,7 +379,7 @@ func (w *c37World) expiries(certs []int) []int64 {
 
 func c37Run(c c37Case, st *vstat.Stats) error {
 	ctx := context.Background()
-	w := &c37World{c: c, byID: map[ids.ID]int{}, pending: map[int]bool{}, exec: map[ids.ID]uint64{}, st: st, labels: map[string]bool{}}
+	w := &c37World{c: c, byID: map[ids.ID]int{}, pending: map[int]bool{}, exec: map[ids.ID]uint64{}, headers: map[ids.ID]dsmr.BlockHeader{}, st: st, labels: map[string]bool{}}
 	for i, e := range c.Pool {
 		it, err := c37Item(e, i)
 		if err != nil {
@@ -382,6 +401,7 @@ func c37Run(c c37Case, st *vstat.Stats) error {
 	}
 	w.index = newFxChainIndex()
 	w.index.add(genesis)
+	w.headers[genesis.GetID()] = genesis.BlockHeader
 	tvw, err := validitywindow.NewTimeValidityWindow[fxItem](ctx, logging.NoLog{}, trace.Noop, w.index, dsmr.NewValidityWindowBlock(genesis), func(int64) int64 { return c.Window })
 	if err != nil {
 		return fmt.Errorf("harness: %w", err)
@@ -633,6 +653,7 @@ func TestC37(t *testing.T) {
 	st.Assumption("storage content is set through AddLocalChunkWithCert, standing for both the local path and the sign-then-gossip path, neither of which consults the accepted set")
 	rapid.Check(t, func(rt *rapid.T) {
 		c := c37Gen(rt)
+		fxTraceCase(c)
 		vstat.Run(rt, st, c, func() error { return c37Run(c, st) })
 	})
 }
